@@ -189,6 +189,47 @@ def c05(tier):
 
 
 # ---------------------------------------------------------------- C16
+def racing_clear(ld, j):
+  """ld.clear() with a consumer's non-blocking token take injected before the j-th call clear() makes on the token queue
+  (after clear() if it makes fewer calls).  Returns (status of clear, did the take get a token, was the take after clear)."""
+  import queue
+  real, state = ld.locking_queue, {"n": 0, "took": None}
+
+  def _take():
+    if state["took"] is None and real.mutex.acquire(False):     # a consumer could not get in while clear() holds the queue's own lock
+      real.mutex.release()
+      try:
+        real.get_nowait()
+        state["took"] = True
+      except queue.Empty:
+        state["took"] = False
+
+  class _Racing(object):
+    def __getattr__(self, name):
+      a = getattr(real, name)
+      if not callable(a):
+        return a
+
+      def call(*args, **kw):
+        if state["n"] == j:
+          _take()
+        state["n"] += 1
+        return a(*args, **kw)
+      return call
+  ld.locking_queue = _Racing()
+  status = "ok"
+  try:
+    ld.clear()
+  except Exception as ex:  # noqa
+    status = "raised:" + type(ex).__name__
+  finally:
+    ld.locking_queue = real
+  late = state["took"] is None
+  if late:
+    _take()
+  return status, bool(state["took"]), late
+
+
 def _ld_seq_trace(rng, cap, nops):
   """random single-threaded op sequence on the real LockingDeque (real queue.Queue; nothing may block)"""
   import queue
@@ -203,8 +244,31 @@ def _ld_seq_trace(rng, cap, nops):
   ops, nid = [], 0
   force = None
   for _ in range(nops):
-    k = force or rng.choices(["append", "appendleft", "popleft", "pop", "clear", "len", "wait"], [30, 25, 15, 10, 6, 8, 5])[0]
+    k = force or rng.choices(["append", "appendleft", "popleft", "pop", "clear", "len", "wait", "clear_race"], [30, 25, 15, 10, 6, 8, 5, 5])[0]
     force = None
+    if k == "clear_race":
+      # clear() is not one step: the consumer may take a wake-up token between any two things clear() does with the token
+      # queue.  The take is injected before the j-th call clear() makes on the token queue and the pair is recorded in a
+      # linearised order the specification already knows: the take succeeded -> "wait" (with the content before) then "clear";
+      # it found no token -> "clear" then "wait_empty".  Whatever the moment, clear() must succeed and leave nothing behind.
+      before, tq = list(ld.deque), ld.locking_queue.qsize()
+      j = rng.randint(0, 3)
+      status, took, late = racing_clear(ld, j)
+      real = ld.locking_queue
+      # (7th field: how to replay - the clear carries the injection point, its companion is part of the same racing call)
+      crec = ["clear", 0, 0, list(ld.deque), real.qsize(), status, j]
+      if took and not late:
+        ops.append(["wait", 0, 0, before, tq - 1, "ok", "race"] if before else ["wait_empty", 0, 0, [], 0, "raised:Empty", "race"])
+        ops.append(crec)
+      elif took:
+        # (only if clear() left a token behind: the record of clear() already says so)
+        ops.append(crec)
+      else:
+        ops.append(crec)
+        ops.append(["wait_empty", 0, 0, list(ld.deque), real.qsize(), "raised:Empty", "race"])
+      if status != "ok":
+        break
+      continue
     if k == "wait" and len(ld.deque) == 0:
       k = "len"
     rec = [k, 0, 0, [], 0, "ok"]
@@ -260,7 +324,7 @@ def c16(tier):
   from checks import seq
   from harness import gen, seqcheck
   run = common.Run("C16", tier, "model_checking")
-  run.assumptions += ["single-threaded histories (the concurrent behaviour of the same queue is C04/C05)",
+  run.assumptions += ["single-threaded histories, plus a consumer taking a wake-up token at any point inside clear() (the other concurrent behaviour of the same queue is C04/C05)",
                       "which older event a full queue gives up is not prescribed: only that the new event is kept at its end and the bound holds"]
   # (M) all operation sequences on the abstract bounded deque with tokens
   mcs = [(2, 6), (3, 5)] if tier == "quick" else [(2, 8), (3, 7), (4, 6)]
